@@ -22,8 +22,27 @@
 //!                                <f32 ion injection time> (0 | 1 <f32 noise>) [n (mz, intensity)] }] }]
 //!   [n { <file> <peptide> <exact 0|1> }]   LFQ claims: planted peptide with a clean MS1 isotope envelope in that file
 //!                                  (exact = the envelope is exactly sage's own theoretical distribution)
+//!   <parquet 0|1>   run the binary a SECOND time on the same inputs with `--parquet` (other output directory) and
+//!                   append what it wrote (read back with the `parquet` crate) to the reply
 //! Reply: ok <tsv rows> <pin rows> <fragment rows> [n tmt rows { filename scannr f32(ion_injection_time) [n f32] }]
 //!        (0 | 1 [n file-column header] [n lfq rows { peptide charge proteins f32(q) f64(score) f64(angle) [n f64] }])
+//!        optional trailing group, present iff the request says `parquet 1`:
+//!        pq (<failure class of the second run / of reading its files> |
+//!            ok [n per TSV row, in TSV row order: the seven f32 TSV columns the row structure above does not carry
+//!                  { aligned_rt predicted_rt delta_rt_model ion_mobility predicted_mobility delta_mobility longest_y_pct }]
+//!               [n results.sage.parquet rows { psm_id filename scannr peptide stripped_peptide proteins num_proteins rank
+//!                  is_decoy expmass calcmass charge peptide_len missed_cleavages semi_enzymatic ms2_intensity isotope_error
+//!                  precursor_ppm fragment_ppm hyperscore delta_next delta_best rt aligned_rt predicted_rt delta_rt_model
+//!                  ion_mobility predicted_mobility delta_mobility matched_peaks longest_b longest_y longest_y_pct
+//!                  matched_intensity_pct scored_candidates poisson sage_discriminant_score posterior_error spectrum_q
+//!                  peptide_q protein_q (0 = null | 1 [n (0 = null | 1 f32)]) = reporter_ion_intensity }]
+//!               (0 = no matched_fragments.sage.parquet | 1 [n { psm_id fragment_type fragment_ordinals fragment_charge
+//!                  fragment_mz_calculated fragment_mz_experimental fragment_intensity }])
+//!               (0 = no lfq.parquet | 1 [n { peptide stripped_peptide (0 | 1 charge) proteins is_decoy f32(q_value)
+//!                  filename f32(intensity) }])
+//!               <0|1: the --parquet run ALSO wrote one of the TSV tables>)
+//!        parquet columns are looked up by NAME in every row (a renamed / missing column is a failure class), all
+//!        floats are f32 in the parquet schemas and cross as bit patterns.
 use super::Info;
 use crate::proto::{Case, Out, Rng, Tier, Toks};
 use sage_core::database::Builder;
@@ -44,7 +63,10 @@ pub const INFO: Info = Info {
            reporter scans referencing their MS2 spectrum, constant power-of-two noise arrays with sn); LFQ with random \
            lfq_settings and MS1 isotope envelopes of the planted peptides; two directed runs (more in thorough) of ~240 \
            spectra of distinct target peptides plus a weak decoy class, so that 1% peptide-level FDR is reached and \
-           lfq.tsv has rows; non-trivial = the run reported at least 2 PSM rows; distinct by request",
+           lfq.tsv has rows; the chimera, LFQ and TMT directed runs and a third of the random runs are executed a SECOND \
+           time with --parquet and the three parquet files are read back (two directed multi-file TMT runs, MS2- and \
+           MS3-level, give every file the same scan ids with different reporter intensities); non-trivial = the run \
+           reported at least 2 PSM rows; distinct by request",
     serial: true,
 };
 
@@ -167,6 +189,8 @@ pub struct Request {
     /// generator-side prediction (not on the wire): the Lean driver will not run the composed pipeline model on
     /// this run because its list-based database / index build would be too slow (`model-na:too-large`)
     pub model_too_large: bool,
+    /// run the binary a second time with `--parquet` and append the parquet tables to the reply
+    pub parquet: bool,
 }
 
 /// the two size criteria of the driver (`buildCost` > COST_LIMIT, `indexCost` > INDEX_LIMIT in Drv/C01.lean),
@@ -284,6 +308,7 @@ pub fn encode(r: &Request) -> String {
     for (f, p, e) in &r.lfq_planted {
         o.n(*f).s(p).b(*e);
     }
+    o.b(r.parquet);
     o.finish()
 }
 
@@ -354,6 +379,7 @@ pub fn decode(t: &mut Toks) -> Option<Request> {
     let (mut tmt_level, mut tmt_sn) = (2u8, false);
     let mut fmts: Vec<FileFmt> = Vec::new();
     let mut lfq_planted = Vec::new();
+    let mut parquet = false;
     if let Some(on) = t.bool() {
         lfq = Lfq { on, peak_scoring: t.usize()? as u8, integration: t.usize()? as u8, spectral_angle: t.f64()?, ppm: t.f32()?, combine: t.bool()? };
         tmt_level = t.usize()? as u8;
@@ -377,6 +403,8 @@ pub fn decode(t: &mut Toks) -> Option<Request> {
             })
         })?;
         lfq_planted = t.list(|t| Some((t.usize()?, t.string()?, t.bool()?)))?;
+        // third optional trailing token (absent in older request lines = no parquet run)
+        parquet = t.bool().unwrap_or(false);
     }
     Some(Request {
         cfg: Cfg {
@@ -391,6 +419,7 @@ pub fn decode(t: &mut Toks) -> Option<Request> {
         fmts,
         lfq_planted,
         model_too_large: false,
+        parquet,
     })
 }
 
@@ -690,25 +719,11 @@ fn emit_table(o: &mut Out, table: &(Vec<String>, Vec<Vec<String>>), cols: &[(&st
     Ok(())
 }
 
-pub fn run(r: &Request) -> String {
-    let sc = scratch();
-    let dir = &sc.0;
-    let fasta_path = dir.join("db.fasta");
-    std::fs::write(&fasta_path, fasta_text(&r.fasta)).unwrap();
-    let mut paths = Vec::new();
-    for (i, f) in r.files.iter().enumerate() {
-        let p = dir.join(file_name(r, i));
-        let fmt = r.fmts.get(i).cloned().unwrap_or_default();
-        match fmt.format {
-            0 => std::fs::write(&p, mgf_text(f)).unwrap(),
-            1 => std::fs::write(&p, mzml_text(f, &fmt)).unwrap(),
-            _ => std::fs::write(&p, gzip(mzml_text(f, &fmt).as_bytes())).unwrap(),
-        }
-        paths.push(p.to_string_lossy().to_string());
-    }
-    let outdir = dir.join("out");
-    let cfg = config_json(&r.cfg, &fasta_path.to_string_lossy(), &paths, &outdir.to_string_lossy());
-    let cfg_path = dir.join("cfg.json");
+/// one run of the built binary on the files already written into `dir`; `Err` = failure class of the reply
+fn run_sage(r: &Request, dir: &std::path::Path, fasta_path: &std::path::Path, paths: &[String], outdir: &std::path::Path,
+            cfg_name: &str, parquet: bool) -> Result<(), String> {
+    let cfg = config_json(&r.cfg, &fasta_path.to_string_lossy(), paths, &outdir.to_string_lossy());
+    let cfg_path = dir.join(cfg_name);
     std::fs::File::create(&cfg_path).unwrap().write_all(serde_json::to_string_pretty(&cfg).unwrap().as_bytes()).unwrap();
 
     let mut cmd = std::process::Command::new(sage_bin());
@@ -727,9 +742,12 @@ pub fn run(r: &Request) -> String {
     if r.cfg.annotate {
         cmd.arg("--annotate-matches");
     }
+    if parquet {
+        cmd.arg("--parquet");
+    }
     let outp = match cmd.output() {
         Ok(o) => o,
-        Err(_) => return "err:cannot-run-sage-binary".into(),
+        Err(_) => return Err("err:cannot-run-sage-binary".into()),
     };
     if !outp.status.success() {
         let e = String::from_utf8_lossy(&outp.stderr);
@@ -743,7 +761,187 @@ pub fn run(r: &Request) -> String {
         if std::env::var("VERIF_C01_STDERR").is_ok() {
             eprintln!("{}", e);
         }
-        return class.to_string();
+        return Err(class.to_string());
+    }
+    Ok(())
+}
+
+// ------------------------------------------------------------------------------------- parquet output
+
+use parquet::file::reader::{FileReader, SerializedFileReader};
+use parquet::record::Field;
+
+/// every row of a parquet file as (column name, value) pairs, through the crate's record reader (which assembles
+/// the LIST column of results.sage.parquet from its definition / repetition levels); `None` = the file is absent
+fn read_parquet(path: &std::path::Path, what: &str) -> Result<Option<Vec<Vec<(String, Field)>>>, String> {
+    let file = match std::fs::File::open(path) {
+        Ok(f) => f,
+        Err(_) => return Ok(None),
+    };
+    let bad = || format!("err:unreadable:{}", what);
+    let reader = SerializedFileReader::new(file).map_err(|_| bad())?;
+    let mut rows = Vec::new();
+    for row in reader.get_row_iter(None).map_err(|_| bad())? {
+        let row = row.map_err(|_| bad())?;
+        rows.push(row.get_column_iter().map(|(n, f)| (n.clone(), f.clone())).collect());
+    }
+    Ok(Some(rows))
+}
+
+#[derive(Clone, Copy)]
+enum PTy {
+    I64,
+    I32,
+    OptI32,
+    Str,
+    Bool,
+    F32,
+    /// optional LIST of optional f32
+    F32List,
+}
+
+fn emit_parquet(o: &mut Out, what: &str, rows: &[Vec<(String, Field)>], cols: &[(&str, PTy)]) -> Result<(), String> {
+    o.n(rows.len());
+    for row in rows {
+        for (name, ty) in cols {
+            let mut hits = row.iter().filter(|(n, _)| n == name);
+            let f = match (hits.next(), hits.next()) {
+                (Some((_, f)), None) => f,
+                _ => return Err(format!("err:missing-column:{}:{}", what, name)),
+            };
+            let bad = || format!("err:bad-type:{}:{}", what, name);
+            match (ty, f) {
+                (PTy::I64, Field::Long(v)) => {
+                    o.n(*v);
+                }
+                (PTy::I32, Field::Int(v)) => {
+                    o.n(*v);
+                }
+                (PTy::OptI32, Field::Null) => {
+                    o.n(0);
+                }
+                (PTy::OptI32, Field::Int(v)) => {
+                    o.n(1).n(*v);
+                }
+                (PTy::Str, Field::Str(v)) => {
+                    o.s(v);
+                }
+                (PTy::Bool, Field::Bool(v)) => {
+                    o.b(*v);
+                }
+                (PTy::F32, Field::Float(v)) => {
+                    o.f32(*v);
+                }
+                (PTy::F32List, Field::Null) => {
+                    o.n(0);
+                }
+                (PTy::F32List, Field::ListInternal(l)) => {
+                    o.n(1).n(l.elements().len());
+                    for e in l.elements() {
+                        match e {
+                            Field::Null => o.n(0),
+                            Field::Float(v) => o.n(1).f32(*v),
+                            _ => return Err(bad()),
+                        };
+                    }
+                }
+                _ => return Err(bad()),
+            }
+        }
+    }
+    Ok(())
+}
+
+/// second run of the binary with `--parquet` into `out-parquet`; the tables it wrote, in wire form
+fn parquet_tables(r: &Request, dir: &std::path::Path, fasta_path: &std::path::Path, paths: &[String],
+                  tsv: &(Vec<String>, Vec<Vec<String>>)) -> Result<String, String> {
+    let outdir = dir.join("out-parquet");
+    run_sage(r, dir, fasta_path, paths, &outdir, "cfg-parquet.json", true)?;
+    let mut o = Out::new();
+    emit_table(
+        &mut o,
+        tsv,
+        &[
+            ("aligned_rt", Ty::F32), ("predicted_rt", Ty::F32), ("delta_rt_model", Ty::F32), ("ion_mobility", Ty::F32),
+            ("predicted_mobility", Ty::F32), ("delta_mobility", Ty::F32), ("longest_y_pct", Ty::F32),
+        ],
+    )?;
+    use PTy::*;
+    let res = read_parquet(&outdir.join("results.sage.parquet"), "results")?.ok_or_else(|| "err:no-results-parquet".to_string())?;
+    emit_parquet(
+        &mut o,
+        "results",
+        &res,
+        &[
+            ("psm_id", I64), ("filename", Str), ("scannr", Str), ("peptide", Str), ("stripped_peptide", Str), ("proteins", Str),
+            ("num_proteins", I32), ("rank", I32), ("is_decoy", Bool), ("expmass", F32), ("calcmass", F32), ("charge", I32),
+            ("peptide_len", I32), ("missed_cleavages", I32), ("semi_enzymatic", Bool), ("ms2_intensity", F32),
+            ("isotope_error", F32), ("precursor_ppm", F32), ("fragment_ppm", F32), ("hyperscore", F32), ("delta_next", F32),
+            ("delta_best", F32), ("rt", F32), ("aligned_rt", F32), ("predicted_rt", F32), ("delta_rt_model", F32),
+            ("ion_mobility", F32), ("predicted_mobility", F32), ("delta_mobility", F32), ("matched_peaks", I32),
+            ("longest_b", I32), ("longest_y", I32), ("longest_y_pct", F32), ("matched_intensity_pct", F32),
+            ("scored_candidates", I32), ("poisson", F32), ("sage_discriminant_score", F32), ("posterior_error", F32),
+            ("spectrum_q", F32), ("peptide_q", F32), ("protein_q", F32), ("reporter_ion_intensity", F32List),
+        ],
+    )?;
+    match read_parquet(&outdir.join("matched_fragments.sage.parquet"), "fragments")? {
+        None => {
+            o.n(0);
+        }
+        Some(rows) => {
+            o.n(1);
+            emit_parquet(
+                &mut o,
+                "fragments",
+                &rows,
+                &[
+                    ("psm_id", I64), ("fragment_type", Str), ("fragment_ordinals", I32), ("fragment_charge", I32),
+                    ("fragment_mz_calculated", F32), ("fragment_mz_experimental", F32), ("fragment_intensity", F32),
+                ],
+            )?;
+        }
+    }
+    match read_parquet(&outdir.join("lfq.parquet"), "lfq")? {
+        None => {
+            o.n(0);
+        }
+        Some(rows) => {
+            o.n(1);
+            emit_parquet(
+                &mut o,
+                "lfq",
+                &rows,
+                &[
+                    ("peptide", Str), ("stripped_peptide", Str), ("charge", OptI32), ("proteins", Str), ("is_decoy", Bool),
+                    ("q_value", F32), ("filename", Str), ("intensity", F32),
+                ],
+            )?;
+        }
+    }
+    let tsv_too = ["results.sage.tsv", "matched_fragments.sage.tsv", "tmt.tsv", "lfq.tsv"].iter().any(|n| outdir.join(n).exists());
+    o.b(tsv_too);
+    Ok(o.finish())
+}
+
+pub fn run(r: &Request) -> String {
+    let sc = scratch();
+    let dir = &sc.0;
+    let fasta_path = dir.join("db.fasta");
+    std::fs::write(&fasta_path, fasta_text(&r.fasta)).unwrap();
+    let mut paths = Vec::new();
+    for (i, f) in r.files.iter().enumerate() {
+        let p = dir.join(file_name(r, i));
+        let fmt = r.fmts.get(i).cloned().unwrap_or_default();
+        match fmt.format {
+            0 => std::fs::write(&p, mgf_text(f)).unwrap(),
+            1 => std::fs::write(&p, mzml_text(f, &fmt)).unwrap(),
+            _ => std::fs::write(&p, gzip(mzml_text(f, &fmt).as_bytes())).unwrap(),
+        }
+        paths.push(p.to_string_lossy().to_string());
+    }
+    let outdir = dir.join("out");
+    if let Err(class) = run_sage(r, dir, &fasta_path, &paths, &outdir, "cfg.json", false) {
+        return class;
     }
     let tsv = match read_table(&outdir.join("results.sage.tsv")) {
         Some(t) => t,
@@ -900,6 +1098,13 @@ pub fn run(r: &Request) -> String {
                 }
             }
         }
+    }
+    if r.parquet {
+        o.raw("pq");
+        match parquet_tables(r, dir, &fasta_path, &paths, &tsv) {
+            Ok(t) => o.raw("ok").raw(&t),
+            Err(class) => o.raw(&class),
+        };
     }
     o.finish()
 }
@@ -1339,7 +1544,53 @@ pub fn random_request_opts(rng: &mut Rng, nspec: usize, tweak: &dyn Fn(&mut Cfg)
     }
     let model_too_large =
         model_too_large || search_cost(files.iter().map(|f| f.len()).sum(), db.fragments.len()) > SEARCH_LIMIT;
-    Some(Request { cfg, fasta, files, planted, fmts, lfq_planted, model_too_large })
+    Some(Request { cfg, fasta, files, planted, fmts, lfq_planted, model_too_large, parquet: false })
+}
+
+/// give the spectra of every file the SAME scan ids (`scan=1000`, `scan=1001`, … in file order), the way real
+/// instrument files number their scans from the same start; MS3 scans keep referencing their MS2 spectrum and the
+/// planted claims follow. The reporter intensities of a spectrum are drawn per spectrum, so equal ids in different
+/// files carry DIFFERENT reporter intensities (checked: `None` if two colliding spectra agree in the reporter region)
+fn collide_scan_ids(r: &mut Request) -> Option<()> {
+    for fi in 0..r.files.len() {
+        let mut map: HashMap<String, String> = HashMap::new();
+        for (k, s) in r.files[fi].iter_mut().enumerate() {
+            let new = format!("scan={}", 1000 + k);
+            map.insert(s.title.clone(), new.clone());
+            s.title = new;
+        }
+        if let Some(fmt) = r.fmts.get_mut(fi) {
+            for e in fmt.extras.iter_mut() {
+                if let Some((rf, _)) = e.pref.as_mut() {
+                    if let Some(n) = map.get(rf) {
+                        *rf = n.clone();
+                    }
+                }
+            }
+        }
+        for p in r.planted.iter_mut() {
+            if p.file == fi {
+                if let Some(n) = map.get(&p.title) {
+                    p.title = n.clone();
+                }
+            }
+        }
+    }
+    // at least two files with two real spectra each, and colliding spectra differ in the reporter region
+    if r.files.iter().filter(|f| f.len() >= 2).count() < 2 {
+        return None;
+    }
+    let reporters = |s: &Spec| -> Vec<(u32, u32)> { s.peaks.iter().filter(|p| p.0 < 140.0).map(|p| (p.0.to_bits(), p.1.to_bits())).collect() };
+    for a in 0..r.files.len() {
+        for b in a + 1..r.files.len() {
+            for (x, y) in r.files[a].iter().zip(r.files[b].iter()) {
+                if r.cfg.tmt != 0 && r.cfg.tmt_level == 2 && reporters(x) == reporters(y) {
+                    return None;
+                }
+            }
+        }
+    }
+    Some(())
 }
 
 /// directed shapes that every run must contain (index = which one)
@@ -1426,9 +1677,48 @@ fn directed(rng: &mut Rng, which: usize) -> Option<Request> {
             },
             GenOpts { format: Some(1), nfiles: Some(2), scale: false },
         )?,
+        // parquet: MS2-level TMT over three files (random formats) whose scan ids COLLIDE, fragment annotation on
+        7 => {
+            let plex = *rng.pick(&[6u8, 10, 11, 16, 18]);
+            random_request_opts(
+                rng,
+                14,
+                &move |c| {
+                    c.tmt = plex;
+                    c.tmt_level = 2;
+                    c.tmt_sn = false;
+                    c.lfq = Lfq::default();
+                    c.annotate = true;
+                    c.batch = 2;
+                    c.prefilter = false;
+                },
+                GenOpts { format: None, nfiles: Some(3), scale: false },
+            )?
+        }
+        // parquet: MS3-level TMT over two mzML files with colliding scan ids (some MS2 spectra have no MS3 scan:
+        // null reporter lists next to filled ones)
+        8 => random_request_opts(
+            rng,
+            12,
+            &|c| {
+                c.tmt = 16;
+                c.tmt_level = 3;
+                c.tmt_sn = false;
+                c.lfq = Lfq::default();
+                c.report_psms = 2;
+            },
+            GenOpts { format: Some(1), nfiles: Some(2), scale: false },
+        )?,
         _ => random_request_with(rng, 9, &|_| {})?,
     };
+    // the `--parquet` second run: the chimera run (ranks > 1), both LFQ runs, all TMT runs
+    if which >= 3 {
+        r.parquet = true;
+    }
     match which {
+        7 | 8 => {
+            collide_scan_ids(&mut r)?;
+        }
         // more files than the batch size, file count not a multiple of it (last batch is short)
         0 => {
             r.cfg.batch = 2;
@@ -1503,12 +1793,28 @@ fn directed(rng: &mut Rng, which: usize) -> Option<Request> {
     Some(r)
 }
 
+/// does some scan id occur in two different input files?
+fn scan_ids_collide(r: &Request) -> bool {
+    let mut seen: HashMap<&str, usize> = HashMap::new();
+    for (fi, f) in r.files.iter().enumerate() {
+        for s in f {
+            if let Some(&g) = seen.get(s.title.as_str()) {
+                if g != fi {
+                    return true;
+                }
+            }
+            seen.insert(s.title.as_str(), fi);
+        }
+    }
+    false
+}
+
 pub fn gen(rng: &mut Rng, tier: Tier, emit: &mut dyn FnMut(Case)) {
     let n = if tier == Tier::Quick { 6 } else { 150 };
     let mut made = 0;
     let mut tries = 0;
     let mut next_directed = 0usize;
-    const NDIRECTED: usize = 7;
+    const NDIRECTED: usize = 9;
     while made < n + NDIRECTED && tries < (n + NDIRECTED) * 12 {
         tries += 1;
         let nspec = 4 + rng.below(if tier == Tier::Quick { 8 } else { 30 });
@@ -1518,6 +1824,10 @@ pub fn gen(rng: &mut Rng, tier: Tier, emit: &mut dyn FnMut(Case)) {
                 next_directed += 1;
             }
             r
+        } else if tier != Tier::Quick && made % 20 == 5 {
+            // thorough only: further multi-file TMT runs with colliding scan ids, repeated with --parquet
+            // (alternating MS2- and MS3-level quantification)
+            directed(rng, 7 + (made / 20) % 2)
         } else if tier != Tier::Quick && made % 25 == 10 {
             // thorough only: further runs large enough for 1% peptide-level FDR, with random LFQ settings and formats
             let (ps, ig, sa, ppm, comb) = (rng.below(4) as u8, rng.below(2) as u8, *rng.pick(&[0.5f64, 0.7, 0.8]), *rng.pick(&[5.0f32, 10.0, 20.0]), rng.chance(1, 2));
@@ -1541,7 +1851,16 @@ pub fn gen(rng: &mut Rng, tier: Tier, emit: &mut dyn FnMut(Case)) {
                 GenOpts { format: None, nfiles: None, scale: true },
             )
         } else {
-            random_request(rng, nspec)
+            // a third of the random runs are repeated with `--parquet`; half of those with multi-file TMT get
+            // colliding scan ids as well
+            let mut r = random_request(rng, nspec);
+            if let Some(r) = r.as_mut() {
+                r.parquet = rng.chance(1, 3);
+                if r.parquet && r.cfg.tmt != 0 && r.files.len() > 1 && rng.chance(1, 2) {
+                    let _ = collide_scan_ids(r);
+                }
+            }
+            r
         };
         if let Some(r) = req {
             let c = &r.cfg;
@@ -1577,7 +1896,13 @@ pub fn gen(rng: &mut Rng, tier: Tier, emit: &mut dyn FnMut(Case)) {
                 .tag_if(!r.lfq_planted.is_empty(), "lfq-planted-quantified")
                 .tag_if(c.override_charge, "override-precursor-charge")
                 .tag_if(c.prefilter, "prefilter")
-                .tag_if(r.files.len() > c.batch && r.files.len() % c.batch != 0, "short-last-batch");
+                .tag_if(r.files.len() > c.batch && r.files.len() % c.batch != 0, "short-last-batch")
+                .tag_if(r.parquet, "parquet")
+                .tag_if(r.parquet && c.tmt != 0, "parquet-tmt")
+                .tag_if(r.parquet && c.tmt != 0 && scan_ids_collide(&r), "parquet-tmt-colliding-scan-ids")
+                .tag_if(r.parquet && c.lfq.on, "parquet-lfq")
+                .tag_if(r.parquet && c.annotate, "parquet-annotate")
+                .tag_if(r.parquet && c.report_psms > 1, "parquet-report_psms>1");
             emit(case);
             made += 1;
         }
